@@ -17,8 +17,9 @@ Definition pre (g : grid) (o : op) : Prop :=
   | Reorder bns cns =>                             (* the call names every block / connection exactly once *)
       forall g', reorder g bns cns = Ok g' ->
                  Permutation (blist g) (blist g') /\ Permutation (clist g) (clist g')
-  | AddGrid h _ =>                                 (* the other grid is consistent; a common block name means a common block *)
-      Inv (with_view g h) /\ same_name_same_block g (view_of g) h
+  | AddGrid h other_first =>                       (* the other grid is consistent; a block that the sum replaces is unconnected *)
+      Inv (with_view g h) /\
+      (if other_first then replaced_blocks_unconnected g h (view_of g) else replaced_blocks_unconnected g (view_of g) h)
   | Embed h _ _ _ => Inv (with_view g h)           (* the other grid is consistent *)
   end.
 
@@ -38,7 +39,7 @@ Proof.
   - destruct (P g' H) as [Pb Pc]. eapply reorder_inv; eauto.
   - eapply minc_inv; eauto.
   - destruct P as [Ih S]. destruct other_first.
-    + apply (grid_add_inv g h (view_of g) g'); [exact Ih|rewrite with_view_of; exact I|apply same_name_sym; exact S|exact H].
+    + apply (grid_add_inv g h (view_of g) g'); [exact Ih|rewrite with_view_of; exact I|exact S|exact H].
     + apply (grid_add_inv g (view_of g) h g'); [rewrite with_view_of; exact I|exact Ih|exact S|exact H].
   - pose proof (inv_new_conn g i0 i1 I) as I0.
     destruct (embed (new_conn g i0 i1) (view_of (new_conn g i0 i1)) h (next g) fits) as [[r|]|] eqn:E; cbn [bind] in H; [| |discriminate];
